@@ -11,6 +11,7 @@ import (
 	"sort"
 	"strconv"
 	"strings"
+	"sync"
 	"sync/atomic"
 	"time"
 
@@ -196,6 +197,33 @@ func (w *world) exec(tok string) (obs string) {
 			d = time.Duration(dn) * time.Second
 		}
 		return tickOnce(ts[n], d)
+	case "adv": // n seconds pass: every HLS playlist's last access lies n seconds further back
+		n, _ := strconv.Atoi(f[1])
+		for i, st := range w.streams {
+			if w.hasHls[i] {
+				if _, pl := st.VerifHls(); pl != nil {
+					pl.VerifAgeLastAccess(time.Duration(n) * time.Second)
+				}
+			}
+		}
+		return "-"
+	case "info": // GET /api/v1/streams/{path}: service/apis.go onGetStreamInfo → media.Get, Stream.Info
+		p := string(Unhx(f[1]))
+		code, body := apiCall("GET", "/api/v1/streams/"+strings.TrimPrefix(p, "/"), url.Values{})
+		if code == 404 {
+			return "inil"
+		}
+		if code != 200 {
+			return fmt.Sprintf("http%d", code)
+		}
+		var si struct {
+			Path string `json:"path"`
+			CC   int    `json:"cc"`
+		}
+		if err := json.Unmarshal(body, &si); err != nil {
+			return "badjson"
+		}
+		return fmt.Sprintf("i%s/%d", Hx([]byte(si.Path)), si.CC)
 	case "touch":
 		n, _ := strconv.Atoi(f[1])
 		if s := w.get(f[1]); s != nil && w.hasHls[n] {
@@ -343,25 +371,33 @@ func (g *gen) op() string {
 			return fmt.Sprintf("leave:%d:%d:%d", i, c[0], c[1])
 		}
 		return fmt.Sprintf("leave:%d:%d:%d", i, r.Intn(2), 1+r.Intn(3)) // stale / unknown cid
-	case k < 70:
-		d := 0
-		if r.Chance(40) {
-			d = 3600
-		}
+	case k < 69:
+		// the period of this decision: 0 (any access is old enough), 10 min, 1 h; time only passes through
+		// adv (1000 s / 5000 s), so "now - last access" is a multiple of 1000 s: at least 400 s away from
+		// either period, whatever the real time the history takes
+		d := []int{0, 0, 600, 3600, 3600}[r.Intn(5)]
 		return fmt.Sprintf("tick:%d:%d", r.Intn(g.nTask+2), d)
+	case k < 71:
+		return fmt.Sprintf("adv:%d", []int{1000, 1000, 5000}[r.Intn(3)])
 	case k < 73:
 		return fmt.Sprintf("touch:%d", g.stream())
 	case k < 77:
 		g.nTask++
 		return fmt.Sprintf("idle:%d", g.stream())
-	case k < 88:
+	case k < 86:
 		return "get:" + Hx([]byte(spelling(r, basePaths[r.Intn(len(basePaths))])))
+	case k < 89:
+		return "info:" + Hx([]byte(spelling(r, basePaths[r.Intn(len(basePaths))])))
 	case k < 93:
 		return "count"
 	case k < 97:
+		// page tokens: none, the path of a stream (live or not), or something that is no stream's path
 		tok := ""
-		if r.Chance(40) {
+		switch r.Intn(5) {
+		case 0, 1:
 			tok = basePaths[r.Intn(len(basePaths))]
+		case 2:
+			tok = []string{"/", "/a/", "/b", "/b/", "/cam", "/cam/0", "/zzz", "/B", "a"}[r.Intn(9)]
 		}
 		return fmt.Sprintf("infos:%s:%d", Hx([]byte(tok)), r.Intn(4))
 	default:
@@ -389,6 +425,9 @@ func genHistory(r *Rng, n int) []string {
 	// closing observations: every path, the counts, every stream
 	for _, p := range basePaths {
 		ops = append(ops, "get:"+Hx([]byte(p)))
+	}
+	for _, p := range basePaths {
+		ops = append(ops, "info:"+Hx([]byte(p)))
 	}
 	ops = append(ops, "count", "infos:-:10")
 	for i := 0; i < g.nStream; i++ {
@@ -418,6 +457,10 @@ func classify(ops []string, impl, spec []string) (int, string) {
 			return i, "lookup-wrong-stream"
 		case kind == "count" || kind == "infos":
 			return i, "listing-differs-from-live-set"
+		case kind == "info":
+			return i, "stream-info-differs-from-live-stream"
+		case impl[i] == "hang":
+			return i, "registry-operation-hangs"
 		case kind == "probe":
 			return i, "stream-liveness"
 		default:
@@ -555,6 +598,29 @@ func runC05(c *Ctx) {
 		}
 		addCanon(p)
 	}
+	// non-ASCII and ill-formed input: letters with Unicode case mappings, Unicode blanks (TrimSpace), broken UTF-8
+	usegs := []string{"É", "é", "ſ", "İ", "\u212a", "ǅ", "ß", "\u00a0", "\u0085", "\u2003", "\u3000", "\xff", "\xc3", "\xe2\x80", "a", "A", ".", "..", "", " ", "a\u00a0", "\u0085.", ".\u2003"}
+	for i, n := 0, c.Budget(1500, 15000); i < n; i++ {
+		k := 1 + c.Rng.Intn(5)
+		var ss []string
+		for j := 0; j < k; j++ {
+			seg := usegs[c.Rng.Intn(len(usegs))]
+			if c.Rng.Chance(30) {
+				seg += usegs[c.Rng.Intn(len(usegs))]
+			}
+			ss = append(ss, seg)
+		}
+		p := strings.Join(ss, "/")
+		if c.Rng.Chance(60) {
+			p = "/" + p
+		}
+		if c.Rng.Chance(20) {
+			p += "/"
+		}
+		if !isASCII(p) {
+			addCanon(p)
+		}
+	}
 	// histories
 	for i, n := 0, c.Budget(2500, 25000); i < n; i++ {
 		addHist(genHistory(c.Rng, 4+c.Rng.Intn(30)))
@@ -588,18 +654,24 @@ func runC05(c *Ctx) {
 	}
 
 	outs := c.Drive(lines)
+	hung := false // an operation of the implementation never returned: the registry may be locked for good
 	for i, k := range cases {
 		m := KV(outs[i])
 		switch k.kind {
 		case "canon":
 			evalCanon(c, k.str, lines[i], m)
 		case "hist":
-			w := newWorld()
-			impl := make([]string, len(k.ops))
-			for j, o := range k.ops {
-				impl[j] = w.exec(o)
+			if hung {
+				c.Count("not-run-after-a-hanging-operation")
+				continue
 			}
-			w.done()
+			impl, stuckAt := runHistory(k.ops)
+			if stuckAt >= 0 {
+				hung = true
+				c.Find(Finding{Kind: "oracle", Class: "registry-operation-hangs", Case: lines[i], Impl: strings.Join(impl, ";"), Spec: "every registry operation returns",
+					Detail: fmt.Sprintf("op %d (%s) did not return within %v; the histories after this one are not run", stuckAt, k.ops[stuckAt], opTimeout)})
+				continue
+			}
 			model, spec := splitObs(m["model"]), splitObs(m["spec"])
 			nontrivial := false
 			seenReg, seenGet := false, false
@@ -645,7 +717,17 @@ func runC05(c *Ctx) {
 					Detail: fmt.Sprintf("first difference at op %d (%s): impl=%s spec=%s", d, k.ops[d], impl[d], spec[d])})
 			}
 		case "race":
-			impl, blocked := runRace(k.pre, k.mid, k.post)
+			if hung {
+				c.Count("not-run-after-a-hanging-operation")
+				continue
+			}
+			impl, blocked, stuck := runRace(k.pre, k.mid, k.post)
+			if stuck {
+				hung = true
+				c.Find(Finding{Kind: "oracle", Class: "regist-race-never-finishes", Case: lines[i], Impl: "a racing Regist / Unregist did not return", Spec: "one of " + KV(outs[i])["ab"] + " | " + KV(outs[i])["ba"],
+					Detail: fmt.Sprintf("not finished %v after the paused thread was released", opTimeout)})
+				continue
+			}
 			c.Eval(lines[i], true)
 			c.Count("race-" + strings.SplitN(k.mid[0], ":", 2)[0] + "-" + strings.SplitN(k.mid[1], ":", 2)[0])
 			if blocked {
@@ -668,6 +750,55 @@ func runC05(c *Ctx) {
 	}
 }
 
+// a registry operation is a handful of map operations under a mutex: one that has not returned after
+// opTimeout never will (the bound is only reached on a broken tree)
+const opTimeout = 90 * time.Second
+
+// runHistory runs the ops on the real code in one goroutine; stuckAt >= 0: that op never returned
+// (the goroutine is abandoned, the observations so far are returned)
+func runHistory(ops []string) (impl []string, stuckAt int) {
+	var mu sync.Mutex
+	obs := make([]string, 0, len(ops))
+	done := make(chan struct{})
+	go func() {
+		defer close(done)
+		w := newWorld()
+		for _, o := range ops {
+			r := w.exec(o)
+			mu.Lock()
+			obs = append(obs, r)
+			mu.Unlock()
+		}
+		w.done()
+	}()
+	last, lastChange := -1, time.Now()
+	for {
+		select {
+		case <-done:
+			return obs, -1
+		case <-time.After(200 * time.Millisecond):
+		}
+		mu.Lock()
+		n := len(obs)
+		mu.Unlock()
+		if n != last {
+			last, lastChange = n, time.Now()
+		} else if time.Since(lastChange) > opTimeout {
+			mu.Lock()
+			defer mu.Unlock()
+			out := append([]string(nil), obs...)
+			at := len(out)
+			for len(out) < len(ops) {
+				out = append(out, "hang")
+			}
+			if at >= len(ops) {
+				at = len(ops) - 1 // the clean-up after the last op hangs
+			}
+			return out, at
+		}
+	}
+}
+
 func opAt(ops []string, i int) string {
 	if i < len(ops) {
 		return ops[i]
@@ -675,8 +806,21 @@ func opAt(ops []string, i int) string {
 	return "<end>"
 }
 
+func isASCII(s string) bool {
+	for i := 0; i < len(s); i++ {
+		if s[i] >= 0x80 {
+			return false
+		}
+	}
+	return true
+}
+
 func evalCanon(c *Ctx, s, line string, m map[string]string) {
 	got := utils.CanonicalPath(s)
+	ascii := isASCII(s)
+	if !ascii {
+		c.Count("canon-non-ascii")
+	}
 	c.Eval(line, strings.Trim(s, " /.") != "")
 	c.Count(fmt.Sprintf("canon-len-%d", len(s)))
 	if got != s {
@@ -685,7 +829,10 @@ func evalCanon(c *Ctx, s, line string, m map[string]string) {
 	if strings.HasSuffix(got, "/") && got != "/" {
 		c.Count("canon-trailing-slash-kept")
 	}
-	if Hx([]byte(got)) != m["model"] {
+	// (the executable model is the ASCII instance of the generic one: compared on ASCII inputs only; Go lower-cases
+	// and trims by Unicode rules, for which the property's "same path" relations are checked below on the
+	// implementation's own outputs)
+	if ascii && Hx([]byte(got)) != m["model"] {
 		c.Find(Finding{Kind: "corr", Class: "canon", Case: line, Impl: Hx([]byte(got)), Model: m["model"], Detail: fmt.Sprintf("CanonicalPath(%q)=%q", s, got)})
 	}
 	// the property's reading of "the same path", checked on the implementation's own outputs
@@ -696,7 +843,9 @@ func evalCanon(c *Ctx, s, line string, m map[string]string) {
 		}
 	}
 	check("idem", got)
-	check("case", strings.ToUpper(s))
+	if ascii { // (not every letter is the lower case of its own upper case: 'ſ' → 'S' → 's')
+		check("case", strings.ToUpper(s))
+	}
 	check("blanks", " \t"+s+"\n ")
 	check("doubled-slash", strings.Replace(s, "/", "//", -1))
 	if t := strings.TrimSpace(s); !strings.HasPrefix(t, "/") {
@@ -706,9 +855,13 @@ func evalCanon(c *Ctx, s, line string, m map[string]string) {
 
 // runRace: pre ops, then thread A paused at its verif point (after Load, before Store/Delete),
 // thread B run (it either completes, or waits for A's lock: bounded grace), A resumed, post ops.
-func runRace(pre, mid, post []string) (obs []string, bBlocked bool) {
+func runRace(pre, mid, post []string) (obs []string, bBlocked bool, stuck bool) {
 	w := newWorld()
-	defer w.done()
+	defer func() {
+		if !stuck {
+			w.done()
+		}
+	}()
 	for _, o := range pre {
 		w.exec(o)
 	}
@@ -730,22 +883,30 @@ func runRace(pre, mid, post []string) (obs []string, bBlocked bool) {
 		aPaused = true
 	case <-doneA:
 		atomic.StoreInt32(&armed, 0)
+	case <-time.After(opTimeout):
+		close(release)
+		return nil, false, true
 	}
 	go func() { w.exec(mid[1]); close(doneB) }()
 	if aPaused {
 		select {
 		case <-doneB:
-		case <-time.After(25 * time.Millisecond):
+		case <-time.After(60 * time.Millisecond):
 			bBlocked = true // B waits for the lock A holds (or is just slow: then the race window is simply not exercised)
 		}
 		close(release)
 	}
-	<-doneA
-	<-doneB
+	for _, ch := range []chan struct{}{doneA, doneB} {
+		select {
+		case <-ch:
+		case <-time.After(opTimeout):
+			return nil, bBlocked, true
+		}
+	}
 	for _, o := range post {
 		obs = append(obs, w.exec(o))
 	}
-	return obs, bBlocked
+	return obs, bBlocked, false
 }
 
 var _ = sort.Strings
